@@ -501,7 +501,11 @@ pub fn c13(tier: Tier, _seed: u64) -> Prop {
             "host-speed independence cannot be enumerated without a clock seam (none is added: it would rewrite existing lines); what is shown per program is that run()'s result equals a computation with no clock in it, plus a repeated run under whatever load the 16 parallel shards create (supplementary sampling)".into(),
             "thresholds: 1-2 (quick) / 1,2,3,5 (thorough) multiples of 2,000,000 states per shape".into(),
         ],
-        units: c13_units(tier),
+        units: {
+            let mut u = c13_units(tier);
+            u.push(super::realbin::c13_unit());
+            u
+        },
         extra: Box::new(|m| {
             let mut ins = 0u64;
             let mut runs = 0u64;
